@@ -287,6 +287,9 @@ def reject_stream(ck, tmp, keys, envs):
     signed = signed[1] if signed[0] == "ok" else None
     cs = [("unknown key", data, "no_such_key", "eddsa", "ValueError"),
           ("wrong key type", data, keys.mismatch_for("es-256"), "es-256", "ValueError"),
+          ("a 256-bit key of another curve (secp256k1)", data, "k_k1", "es-256", "ValueError"),
+          ("a 256-bit key of another curve (brainpoolP256r1)", data, "k_bp256", "es-256", "ValueError"),
+          ("a 384-bit key of another curve (brainpoolP384r1)", data, "k_bp384", "es-384", "ValueError"),
           ("unsupported key type", data, "k_rsa", "eddsa", "ValueError")]
     if signed:
         cs.append(("already signed, action error", signed, keys.for_alg("es-256"), "es-256", "SignerError"))
